@@ -18,7 +18,7 @@ case "$(basename "$FILE")" in
     fi ;;
   *)
     FLV="$ROOT/harness/target/release/flv"
-    if [ "$ID" = "C12" ]; then
+    if [ "$ID" = "C12" ] || [ "$ID" = "C04" ] || [ "$ID" = "C10" ]; then
       CARGO_NET_OFFLINE=true cargo build --release --offline --features watcher --target-dir "$ROOT/harness/target-w" >"$ROOT/harness/build-w.log" 2>&1 || { echo "BUILD FAILED"; exit 2; }
       FLV="$ROOT/harness/target-w/release/flv"
     fi
